@@ -1799,6 +1799,8 @@ func (e *Env) callExpr(n *ast.CallExpr) tv {
 			return e.sumExpr(n)
 		case "elemsat":
 			return tv{VBool{e.elemsAt(n)}, types.Typ[types.Bool]}
+		case "allspec":
+			return tv{VBool{e.allSpec(n)}, types.Typ[types.Bool]}
 		case "bbytes_eq", "bzero":
 			return e.bufBytesEq(id.Name, n)
 		case "sbytes_eq":
@@ -2596,6 +2598,84 @@ func (e *Env) elemsAt(n *ast.CallExpr) *Term {
 			return And(at(f.mem, f.boff, f.base)(ev), ULe(Add(sumK, szT), sumN), ULe(szT, Const(64, 1<<50)))
 		})
 		hyp = And(hyp, Implies(And(f.guard, ULt(k, f.n), below), inst))
+	}
+	return Implies(And(ULt(k, cnt), hyp), goal)
+}
+
+// allSpec evaluates allspec(xs, n, "name", v): for every k < n the integer spec function name(xs[k]) equals v.
+// Assumed, it is recorded on the state (like elemsat); proved, the index is skolemised and the recorded facts of
+// the same spec about this sequence or one it was appended to are instantiated at the skolem.
+func (e *Env) allSpec(n *ast.CallExpr) *Term {
+	if len(n.Args) != 4 {
+		evalFail("allspec(xs, n, \"spec\", v) in %q", e.in)
+	}
+	xa := e.eval(n.Args[0])
+	xs, ok := xa.v.(VSlice)
+	if !ok {
+		evalFail("allspec: first argument is not a slice in %q", e.in)
+	}
+	cnt := e.intArg(n.Args[1])
+	name := ""
+	if bl, ok := n.Args[2].(*ast.BasicLit); ok {
+		name = strings.Trim(bl.Value, "\"")
+	}
+	specs := e.ex.L.Contracts.Specs[name]
+	if len(specs) == 0 {
+		evalFail("allspec: unknown spec %q in %q", name, e.in)
+	}
+	val := e.intArg(n.Args[3])
+	if e.negated {
+		evalFail("allspec in hypothesis position is not supported in %q", e.in)
+	}
+	if xs.Obj == 0 {
+		return True
+	}
+	so := e.st.heap[xs.Obj]
+	if so == nil || so.Kind != okSeq || !xs.Off.IsConst() || xs.Off.Val != 0 {
+		evalFail("allspec over a re-sliced or non-sequence list in %q", e.in)
+	}
+	et := xa.t.Underlying().(*types.Slice).Elem()
+	fam := "spec:" + name
+	if e.assuming {
+		e.st.elemFacts = append(append([]elemFact{}, e.st.elemFacts...), elemFact{base: val, seq: so.Seq.id, n: cnt, fam: fam, guard: e.guard})
+		return True
+	}
+	k := Fresh("elemsat_k", BV(64))
+	if e.skolems != nil {
+		*e.skolems = append(*e.skolems, k)
+	}
+	at := func(v *Term) func(Value) *Term {
+		return func(ev Value) *Term {
+			r := e.specApply(name, specs, []tv{{ev, et}})
+			iv, ok := r.v.(VInt)
+			if !ok {
+				evalFail("allspec: %s is not an integer spec in %q", name, e.in)
+			}
+			return Eq(SExt(iv.T, 64), v)
+		}
+	}
+	goal := e.seqMapAt(so, k, len(so.Seq.entries)-1, at(val))
+	hyp := True
+	for _, f := range e.st.elemFacts {
+		if f.fam != fam {
+			continue
+		}
+		below := True
+		found := false
+		for q := so.Seq; q != nil; q = q.parent {
+			if q.id == f.seq {
+				found = true
+				break
+			}
+			if q.parent == nil || q.parentLen == nil {
+				break
+			}
+			below = And(below, ULt(k, q.parentLen), ULe(f.n, q.parentLen))
+		}
+		if !found {
+			continue
+		}
+		hyp = And(hyp, Implies(And(f.guard, ULt(k, f.n), below), e.seqMapAt(so, k, len(so.Seq.entries)-1, at(f.base))))
 	}
 	return Implies(And(ULt(k, cnt), hyp), goal)
 }
